@@ -404,7 +404,11 @@ def collapse_modes(
             negative_imk_by_orderl[tidal_order_l] /= N
             # Whenever the frequency is zero, a effective Q is ignored (since it would be inf) Make sure the average
             #    is taking those skipped Q's into account by subtracting the number of them.
-            effective_q_by_orderl[tidal_order_l] /= (N - bad_qs)
+            if (N - bad_qs) > 0:
+                effective_q_by_orderl[tidal_order_l] /= (N - bad_qs)
+            else:
+                # Every mode at this order l has -Im[k] == 0 (e.g., an elastic body): the effective Q is infinite.
+                effective_q_by_orderl[tidal_order_l] = np.inf * np.real(fake_compliance)
 
     # Collapse Modes
     # FIXME: Njit did not like sum( ), so doing separate loop for these for now...
